@@ -546,8 +546,54 @@ func main() {
 			r.Fail("C16/generated-code-does-not-compile/"+pkg+"/permessage="+cs.pm, fmt.Sprintf("%s|permessage=%s unsafe=%s special=%s", pkg, cs.pm, cs.u, cs.sp), map[string]any{"errors": es})
 		}
 	}
+	// the repository's example schemas are compiled too, against the example module's own message types: every
+	// checked-in *.pb.fm.go of the package is masked out and the freshly generated files take their place
+	exDirs := map[string]string{"googlev2_proto2_example.proto": "proto2/googlev2", "googlev2_proto3_example.proto": "proto3/googlev2", "googlev2_permessage_example.proto": "permessage/googlev2"}
+	exCompiled := 0
+	for _, s := range scs {
+		dir, isEx := exDirs[s.file]
+		if !isEx || s.corpus {
+			continue
+		}
+		for _, pm := range []string{"false", "true"} {
+			res := results[s.id+"|"+optSet{"v2", pm, "false", ""}.String()]
+			if res == nil || res.err != "" || len(res.names) != len(res.files) {
+				continue
+			}
+			pkgDir := filepath.Join(repoDir(), "example", dir)
+			replace := map[string]string{}
+			old, _ := filepath.Glob(filepath.Join(pkgDir, "*.pb.fm.go"))
+			for _, o := range old {
+				replace[o] = ""
+			}
+			out := filepath.Join(run, fmt.Sprintf("ex_%s_%s", strings.ReplaceAll(dir, "/", "_"), pm))
+			os.MkdirAll(out, 0o755)
+			for name, content := range res.files {
+				pth := filepath.Join(out, filepath.Base(name))
+				os.WriteFile(pth, []byte(content), 0o644)
+				replace[filepath.Join(pkgDir, filepath.Base(name))] = pth
+			}
+			ov, _ := json.Marshal(map[string]any{"Replace": replace})
+			ovp := filepath.Join(out, "overlay.json")
+			os.WriteFile(ovp, ov, 0o644)
+			c := exec.Command("go", "build", "-overlay", ovp, "./"+dir)
+			c.Dir, c.Env = filepath.Join(repoDir(), "example"), goEnv
+			outb, err := c.CombinedOutput()
+			exCompiled++
+			if err != nil {
+				var es []string
+				for _, l := range strings.Split(string(outb), "\n") {
+					if strings.TrimSpace(l) != "" && !strings.HasPrefix(l, "#") && len(es) < 5 {
+						es = append(es, trunc(strings.ReplaceAll(l, out+"/", ""), 240))
+					}
+				}
+				r.Fail("C16/generated-code-does-not-compile/example/"+s.file+"/permessage="+pm, s.id+"|permessage="+pm, map[string]any{"errors": es})
+			}
+		}
+	}
+	r.Set("example_packages_compiled(single file and file per message)", exCompiled)
 	r.Set("packages_compiled(with matching apiversion, 5 option sets)", compiled)
-	r.Evals(runs/2 + int64(compiled))
+	r.Evals(runs/2 + int64(compiled) + int64(exCompiled))
 	r.Nontrivial(ok)
 	r.Sample(map[string]any{"schema": scs[0].id, "messages": scs[0].msgs, "options": opts[5].param()})
 	r.Sample(map[string]any{"schema": scs[len(scs)-1].id, "messages": len(scs[len(scs)-1].msgs), "note": "repository example schema, descriptors recovered from the registered file"})
